@@ -1291,9 +1291,9 @@ func nlCaseCount(tier string) int { // general executions
 
 func nlDirectedCount(tier string) int { // directed rounds (streams arriving around / after the listener close)
 	if tier == "thorough" {
-		return 7500
+		return 10000
 	}
-	return 150
+	return 200
 }
 
 func nlWorker(tier string, seed int64, from int, reportPath string) {
@@ -1355,7 +1355,8 @@ func nlWorker(tier string, seed int64, from int, reportPath string) {
 // directed scenario: streams that reach the listener's per-session goroutine around / after listener.Close
 // (defects X12b: conn queued after Close's drain stays in the backlog for ever; X12c: wg.Add racing with the returning
 // Wait panics). Variants: 0 = the late streams are opened after Close returned; 1 = they race with Close;
-// 2 = they race with the close of the last accepted conn after the listener was closed.
+// 2 = they race with the close of the last accepted conn after the listener was closed; 3 = the per-session goroutine is
+// parked (hook vpNLBeforeBacklogSend) between wrapping the late stream and queueing it until listener.Close has returned.
 
 type nlDirCase struct {
 	Round   int   `json:"round"`
@@ -1368,7 +1369,7 @@ type nlDirCase struct {
 
 func nlGenDirCase(seed int64, k int) nlDirCase {
 	rng := caseRand(seed, 1950000+k)
-	return nlDirCase{Round: k, Variant: k % 3, Clients: 1 + rng.Intn(3), Held: 1 + rng.Intn(2), Late: 1 + rng.Intn(8), Seed: rng.Int63()}
+	return nlDirCase{Round: k, Variant: k % 4, Clients: 1 + rng.Intn(3), Held: 1 + rng.Intn(2), Late: 1 + rng.Intn(8), Seed: rng.Int63()}
 }
 
 func nlRunDirected(col *nlCol, cs nlDirCase, can *canary) (clean bool) {
@@ -1539,6 +1540,35 @@ collect:
 		spinFor(rng.Intn(20000))
 		closeListener()
 		wg.Wait()
+	case 3:
+		// hook vpNLBeforeBacklogSend (after l.mu.Unlock, before the select that queues the conn): the per-session goroutine that
+		// carries the first late stream is parked there until listener.Close has returned, i.e. until Close's drain has run
+		var state int32 // 0 idle, 1 armed, 2 parked
+		parked, release := make(chan struct{}), make(chan struct{})
+		k := newCtl("nl-park", cs.Seed)
+		k.on(vpNLBeforeBacklogSend, func(obj interface{}, n int64) {
+			if ll, ok := obj.(*listener); ok && ll == l && atomic.CompareAndSwapInt32(&state, 1, 2) {
+				close(parked)
+				select {
+				case <-release:
+				case <-time.After(60 * time.Second): // never leave a library goroutine parked for good
+				}
+			}
+		})
+		k.install()
+		atomic.StoreInt32(&state, 1)
+		sendLate(clients[0], 1, false, rng)
+		if nlWait(parked, 20*time.Second) {
+			col.count("directed: rounds with the per-session goroutine parked across listener.Close", 1)
+		} else {
+			col.inconclusive(name, "the per-session goroutine did not reach the backlog-send hook")
+		}
+		for _, cli := range clients[1:] {
+			sendLate(cli, rng.Intn(3), false, rng) // other sessions pass the hook: queued before Close, drained by Close
+		}
+		closeListener()
+		close(release)
+		uninstallCtl()
 	default:
 		closeListener()
 		for i, cli := range clients {
@@ -1658,7 +1688,7 @@ func checkNetListener(c *checkCtx) {
 		"the listener close, or still queued in the backlog at the listener close; read-deadline tests on a quarter of the conns; the listener is closed when a PRNG number of " +
 		"streams has completed and all others have surfaced / are queued (or, in half of the backlog cases, merely written: stream data in flight at the listener close). " +
 		"Directed rounds: 1..3 sessions with accepted conns held open, 1..8 streams per session opened after the listener close / racing with it / racing with the close of " +
-		"the last conn; then Accept-until-error, close everything, sessions must end and nothing may panic. Non-trivial = at the listener close at least one accepted conn was still open or the backlog was not " +
+		"the last conn / with the per-session goroutine parked by a hook between wrapping and queueing a late conn until Close returned; then Accept-until-error, close everything, sessions must end and nothing may panic. Non-trivial = at the listener close at least one accepted conn was still open or the backlog was not " +
 		"empty (measured). Distinct = distinct (clients, streams, backlog streams, late streams, close point, backlog length and open conns at Close, conns handed out after Close, " +
 		"bucketed numbers of conn closes before / after the listener close, stream mode multiset); for directed rounds: at least one late stream was written, distinct (variant, sessions, " +
 		"held conns, late streams bucket, conns handed out after Close)."
@@ -1761,6 +1791,9 @@ func checkNetListener(c *checkCtx) {
 	if c.counter("listener closes with a non-empty backlog") == 0 || c.counter("deadline: reads that had to time out at a future deadline") == 0 ||
 		c.counter("server sessions ended after the last conn was closed") == 0 {
 		c.noObservation("backlog-at-close / deadline / session-end observations missing")
+	}
+	if c.counter("directed: rounds with the per-session goroutine parked across listener.Close") == 0 {
+		c.noObservation("hook NLBeforeBacklogSend never parked a per-session goroutine across listener.Close")
 	}
 }
 
